@@ -527,6 +527,13 @@ class RegionLifter:
         root = _monomial_root(x)
         if root is not None:
             return self.absval(root)
+        # a denominator that is a perfect-square monomial leaves the radical:
+        # sqrt(P / s^2) = sqrt(P) / |s|, so that |y - z / s| and |s y - z| / s share one atom
+        if len(x.den) == 1 and len(x.num) > 1:
+            den = RF(dict(x.den))
+            droot = _monomial_root(den)
+            if droot is not None and not den.is_const():
+                return fn("sqrt", RF(dict(x.num))) / self.absval(droot)
         return fn("sqrt", x)
 
     def norm2(self, v):
